@@ -186,6 +186,49 @@ theorem field_u32 (table : List Row) (sets : List (String × Src))
   have k := file_field_readback table sets a vals hwf hdj r hm hp i (by omega)
   rw [← hlo, k, Row.payload, hs, hraw]
 
+theorem unpack_pack (e : Endian) (k v : Nat) (hv : v < 256 ^ k) : unpackNum e (packNum e k v) = v := by
+  cases e <;> simp only [unpackNum, packNum, decBE_encBE, decLE_encLE] <;> exact Nat.mod_eq_of_lt hv
+
+theorem length_packNum (e : Endian) (k v : Nat) : (packNum e k v).length = k := by
+  cases e <;> simp [packNum, encBE, length_encLE]
+
+theorem packStr_self (n : Nat) (l : List Nat) (h : l.length = n) : packStr n l = l := by
+  subst h
+  apply List.ext_getElem
+  · simp [packStr]
+  · intro i h1 h2
+    simp [packStr, List.getD_eq_getElem?_getD, List.getElem?_eq_getElem h2]
+
+theorem fileSlice_eq (f : List Nat) (lo n : Nat) (p : List Nat) (hp : p.length = n)
+    (h : ∀ i, i < n → f.getD (lo + i) 0 = p.getD i 0) :
+    (List.range n).map (fun i => f.getD (lo + i) 0) = p := by
+  subst hp
+  apply List.ext_getElem
+  · simp
+  · intro i h1 h2
+    simp only [List.length_map, List.length_range] at h1
+    simp only [List.getElem_map, List.getElem_range]
+    rw [h i h1, List.getD_eq_getElem?_getD, List.getElem?_eq_getElem h2]; rfl
+
+/-- the slice of the file a header field occupies is exactly the bytes packed into it -/
+theorem header_bytes_roundtrip (table : List Row) (sets : List (String × Src)) (a : WArgs) (vals : List Float)
+    (hwf : rowsWellFormed table = true) (hdj : disjointRows table = true)
+    (r : Row) (hr : r ∈ table) (hp : r.isPad = false) :
+    fileSlice (zygoFile table sets a vals) r.lo r.hi = r.payload a (lookupSrc sets r.name) := by
+  have hw := wf_row table hwf r hr
+  have e : r.hi - r.lo = r.size := by omega
+  simp only [fileSlice, e]
+  exact fileSlice_eq _ _ _ _ (length_payload r a _) (fun i hi => file_field_readback table sets a vals hwf hdj r hr hp i hi)
+
+/-- a numeric header field unpacks to the value that was packed, in the field's own byte order -/
+theorem header_value_roundtrip (table : List Row) (sets : List (String × Src)) (a : WArgs) (vals : List Float)
+    (hwf : rowsWellFormed table = true) (hdj : disjointRows table = true)
+    (r : Row) (hr : r ∈ table) (hp : r.isPad = false) (v : Nat) (hv : v < 256 ^ r.size)
+    (hraw : (lookupSrc sets r.name).raw a r = packNum r.endian r.size v) :
+    r.unpack (zygoFile table sets a vals) = v := by
+  simp only [Row.unpack, header_bytes_roundtrip table sets a vals hwf hdj r hr hp, Row.payload, hraw]
+  rw [packStr_self _ _ (length_packNum _ _ _), unpack_pack _ _ _ hv]
+
 /-! ## flips -/
 
 
